@@ -13,11 +13,357 @@ Proof. vm_compute. reflexivity. Qed.
 Lemma shipped_are_three : shipped_layouts = [Repetition9Code; Repetition9Round6Code; Repetition5Round4Code].
 Proof. reflexivity. Qed.
 
-(* every shipped layer is moreover a gate set that the acceptance check of C16 accepts, so that (C16_parking) the model's
-   parking question on it is the frequency rule's *)
-Lemma layouts_accepted_b :
-  forallb (fun L => forallb (fun l => mutually_allowed (layer_gates l) && spec_accept (layer_gates l)
-                                      && forallb (fun e => existsb (pair_eqb_or_swap e) oriented_edges) (layer_gates l))
-                            (layout_layers L)) shipped_layouts = true
-with pair_eqb_or_swap_dummy : True.
-Proof. Abort.
+(* every shipped layer is moreover a gate set of device edges that the acceptance check of C16 accepts, hence (C16_parking)
+   the parking question on it is the frequency rule's: the required parks of the rule are present as well *)
+Definition layer_rule_ok (l : GateLayer) : bool :=
+  forallb (fun e => existsb (fun o => String.eqb (fst o) (fst e) && String.eqb (snd o) (snd e)) oriented_edges) (layer_gates l)
+  && mutually_allowed (layer_gates l) && spec_accept (layer_gates l)
+  && forallb (fun q => implb (spec_park q (layer_gates l)) (qmem q (layer_parks l))) qubit_ids.
+
+Lemma layouts_rule_b : forallb (fun L => forallb layer_rule_ok (layout_layers L)) shipped_layouts = true.
+Proof. vm_compute. reflexivity. Qed.
+
+(* ------------------------------------------------------------------ generic list facts *)
+Lemma qmem_In q l : qmem q l = true <-> In q l.
+Proof.
+  unfold qmem. rewrite existsb_exists. split.
+  - intros [y [Hy E]]. apply String.eqb_eq in E. now subst.
+  - intros H. exists q. split; [exact H | apply String.eqb_refl].
+Qed.
+
+Lemma qmem_false_In q l : qmem q l = false <-> ~ In q l.
+Proof. rewrite <- qmem_In. destruct (qmem q l); split; congruence. Qed.
+
+Lemma forallb_filter_keep {A} (f p : A -> bool) l : forallb f l = true -> forallb f (filter p l) = true.
+Proof.
+  rewrite !forallb_forall. intros H x Hx. apply filter_In in Hx. now apply H.
+Qed.
+
+Lemma qmem_gate_qubits q gates : qmem q (gate_qubits gates) = existsb (fun e => edge_contains e q) gates.
+Proof.
+  induction gates as [|e t IH]; [reflexivity|].
+  unfold gate_qubits in *. cbn [flat_map]. unfold qmem in *. rewrite existsb_app, IH. reflexivity.
+Qed.
+
+Lemma qmem_gate_qubits_filter q p gates :
+  qmem q (gate_qubits (filter p gates)) = true -> qmem q (gate_qubits gates) = true.
+Proof.
+  rewrite !qmem_gate_qubits, !existsb_exists. intros [e [He Hc]]. apply filter_In in He. exists e. tauto.
+Qed.
+
+Lemma qnodupb_filter p gates : qnodupb (gate_qubits gates) = true -> qnodupb (gate_qubits (filter p gates)) = true.
+Proof.
+  induction gates as [|e t IH]; [reflexivity|].
+  unfold gate_qubits in *. cbn [flat_map edge_qubits app qnodupb filter]. intros H.
+  rewrite !andb_true_iff, !negb_true_iff in H. destruct H as [H1 [H2 H3]].
+  destruct (p e); [|now apply IH].
+  cbn [flat_map edge_qubits app qnodupb]. rewrite !andb_true_iff, !negb_true_iff. repeat split; [| |now apply IH].
+  - unfold qmem in *. cbn [existsb] in *. apply orb_false_iff in H1. destruct H1 as [Ha Hb]. rewrite Ha. cbn [orb].
+    destruct (existsb (fun y => String.eqb y (fst e)) (flat_map edge_qubits (filter p t))) eqn:E; [|reflexivity].
+    pose proof (qmem_gate_qubits_filter (fst e) p t E) as X. unfold qmem, gate_qubits in X. congruence.
+  - destruct (qmem (snd e) (flat_map edge_qubits (filter p t))) eqn:E; [|reflexivity].
+    pose proof (qmem_gate_qubits_filter (snd e) p t E) as X. unfold gate_qubits in X. congruence.
+Qed.
+
+(* ------------------------------------------------------------------ the guard of get_requires_parking *)
+Lemma requires_parking_not_gated q es : requires_parking q es = true -> qmem q (gate_qubits es) = false.
+Proof.
+  unfold requires_parking. rewrite qmem_gate_qubits.
+  destruct (negb (spectator q es)); [discriminate|].
+  destruct (existsb (fun e => edge_contains e q) es); [discriminate | reflexivity].
+Qed.
+
+(* ------------------------------------------------------------------ re-filtering a layer with recomputed parks *)
+(* both from_connectivity (keep the gates with both qubits involved) and the composite description with
+   _only_required_parking_operations (drop the excluded gates) are instances *)
+Definition refilter (p : edge -> bool) (l : GateLayer) : GateLayer :=
+  MkGateLayer (required_parks (filter p (layer_gates l))) (filter p (layer_gates l)).
+
+Lemma derive_layer_refilter involved l : derive_layer involved l = refilter (both_involved involved) l.
+Proof. reflexivity. Qed.
+Lemma composite_layer_refilter xe xq l :
+  composite_layer xe xq true l = refilter (fun e => negb (excluded xe xq e)) l.
+Proof. reflexivity. Qed.
+
+Lemma required_parks_spec gates q : In q (required_parks gates) <-> In q qubit_ids /\ requires_parking q gates = true.
+Proof. unfold required_parks. apply filter_In. Qed.
+
+Lemma required_present gates parks :
+  (forall q, In q (required_parks gates) -> In q parks) ->
+  forallb (fun q => implb (requires_parking q gates) (qmem q parks)) qubit_ids = true.
+Proof.
+  intros H. apply forallb_forall. intros q Hq. destruct (requires_parking q gates) eqn:E; [|reflexivity].
+  cbn [implb]. apply qmem_In, H, required_parks_spec. split; assumption.
+Qed.
+
+Lemma refilter_ok p l :
+  forallb (fun e => emem e edge_ids) (layer_gates l) = true -> qnodupb (gate_qubits (layer_gates l)) = true ->
+  layer_ok (refilter p l) = true.
+Proof.
+  intros Hdev Hnd. unfold layer_ok, refilter. cbn [layer_gates layer_parks].
+  rewrite !andb_true_iff. repeat split.
+  - now apply forallb_filter_keep.
+  - now apply qnodupb_filter.
+  - apply forallb_forall. intros q Hq. apply required_parks_spec in Hq. destruct Hq as [_ Hq].
+    now rewrite (requires_parking_not_gated _ _ Hq).
+  - apply required_present. tauto.
+Qed.
+
+Lemma layer_ok_clauses l :
+  layer_ok l = true ->
+  forallb (fun e => emem e edge_ids) (layer_gates l) = true /\ qnodupb (gate_qubits (layer_gates l)) = true
+  /\ forallb (fun p => negb (qmem p (gate_qubits (layer_gates l)))) (layer_parks l) = true
+  /\ forallb (fun q => implb (requires_parking q (layer_gates l)) (qmem q (layer_parks l))) qubit_ids = true.
+Proof. unfold layer_ok. rewrite !andb_true_iff. tauto. Qed.
+
+(* ------------------------------------------------------------------ from_connectivity, for ANY involved list *)
+Lemma both_involved_spec involved e : both_involved involved e = true <-> In (fst e) involved /\ In (snd e) involved.
+Proof.
+  unfold both_involved, edge_qubits. cbn [forallb]. rewrite !andb_true_iff, !qmem_In. tauto.
+Qed.
+
+Lemma derived_layers involved L : d_layers (from_connectivity involved L) = map (derive_layer involved) (layout_layers L).
+Proof. reflexivity. Qed.
+
+Lemma derived_gates involved l :
+  layer_gates (derive_layer involved l) = filter (both_involved involved) (layer_gates l)
+  /\ forall e, In e (layer_gates (derive_layer involved l))
+               <-> In e (layer_gates l) /\ In (fst e) involved /\ In (snd e) involved.
+Proof.
+  split; [reflexivity|]. intros e. cbn [derive_layer layer_gates]. rewrite filter_In, both_involved_spec. tauto.
+Qed.
+
+Lemma derived_parks involved l q :
+  In q (layer_parks (derive_layer involved l))
+  <-> In q qubit_ids /\ requires_parking q (layer_gates (derive_layer involved l)) = true.
+Proof. apply required_parks_spec. Qed.
+
+Lemma derived_no_park_and_gate involved l q :
+  In q (layer_parks (derive_layer involved l)) -> ~ In q (gate_qubits (layer_gates (derive_layer involved l))).
+Proof.
+  intros H. apply derived_parks in H. destruct H as [_ H]. apply qmem_false_In. now apply requires_parking_not_gated.
+Qed.
+
+Lemma derived_distinct involved l :
+  qnodupb (gate_qubits (layer_gates l)) = true -> qnodupb (gate_qubits (layer_gates (derive_layer involved l))) = true.
+Proof. apply qnodupb_filter. Qed.
+
+Lemma derived_layer_ok involved l :
+  forallb (fun e => emem e edge_ids) (layer_gates l) = true -> qnodupb (gate_qubits (layer_gates l)) = true ->
+  layer_ok (derive_layer involved l) = true.
+Proof. rewrite derive_layer_refilter. apply refilter_ok. Qed.
+
+Lemma derived_executable L involved :
+  forallb layer_ok (layout_layers L) = true -> forallb layer_ok (d_layers (from_connectivity involved L)) = true.
+Proof.
+  rewrite derived_layers, forallb_map_comp, !forallb_forall. intros H l Hl.
+  destruct (layer_ok_clauses l (H l Hl)) as [H1 [H2 _]]. now apply derived_layer_ok.
+Qed.
+
+Lemma shipped_layers_ok L : In L shipped_layouts -> forallb layer_ok (layout_layers L) = true.
+Proof.
+  intros HL. pose proof layouts_wf_b as H. rewrite forallb_forall in H. specialize (H L HL).
+  unfold layout_ok in H. now rewrite andb_true_iff in H.
+Qed.
+
+Lemma shipped_derived_executable L involved :
+  In L shipped_layouts -> forallb layer_ok (d_layers (from_connectivity involved L)) = true.
+Proof. intros HL. apply derived_executable. now apply shipped_layers_ok. Qed.
+
+(* the parks a description reports through get_park_sequence_indices: exactly the required ones among its own qubits *)
+Lemma observed_parks involved L l q :
+  In q (filter (fun p => qmem p (d_qubits (from_connectivity involved L))) (layer_parks (derive_layer involved l)))
+  <-> In q (d_qubits (from_connectivity involved L)) /\ In q qubit_ids
+      /\ requires_parking q (layer_gates (derive_layer involved l)) = true.
+Proof. rewrite filter_In, qmem_In, derived_parks. tauto. Qed.
+
+(* ------------------------------------------------------------------ the index map *)
+Lemma dict_get_fold q m acc :
+  fold_left (fun a kv => if String.eqb (fst kv) q then Some (snd kv) else a) m acc
+  = match dict_get q m with Some i => Some i | None => acc end.
+Proof.
+  unfold dict_get. revert acc. induction m as [|kv t IH]; intros acc; [reflexivity|].
+  cbn [fold_left]. rewrite IH. rewrite (IH (if String.eqb (fst kv) q then Some (snd kv) else None)).
+  destruct (fold_left _ t None); [reflexivity|]. destruct (String.eqb (fst kv) q); reflexivity.
+Qed.
+
+Lemma dict_get_cons q k v m :
+  dict_get q ((k, v) :: m) = match dict_get q m with Some i => Some i | None => if String.eqb k q then Some v else None end.
+Proof. unfold dict_get at 1. cbn [fold_left fst snd]. apply dict_get_fold. Qed.
+
+Lemma enumerate_get l : forall s q i,
+  dict_get q (enumerate_from s l) = Some i ->
+  (s <= i < s + Z.of_nat (List.length l))%Z /\ nth_error l (Z.to_nat (i - s)) = Some q.
+Proof.
+  induction l as [|x t IH]; intros s q i H; [discriminate|].
+  cbn [enumerate_from] in H. rewrite dict_get_cons in H. cbn [List.length]. rewrite Nat2Z.inj_succ.
+  destruct (dict_get q (enumerate_from (s + 1) t)) eqn:E.
+  - inversion H; subst. destruct (IH _ _ _ E) as [B N]. split; [lia|].
+    replace (Z.to_nat (i - s)) with (S (Z.to_nat (i - (s + 1)))) by lia. exact N.
+  - destruct (String.eqb x q) eqn:Ex; [|discriminate]. inversion H; subst. apply String.eqb_eq in Ex. subst.
+    split; [lia|]. now rewrite Z.sub_diag.
+Qed.
+
+Lemma enumerate_defined l : forall s q, In q l -> exists i, dict_get q (enumerate_from s l) = Some i.
+Proof.
+  induction l as [|x t IH]; intros s q H; [contradiction|].
+  cbn [enumerate_from]. rewrite dict_get_cons.
+  destruct (dict_get q (enumerate_from (s + 1) t)) eqn:E; [eauto|].
+  destruct H as [->|H]; [rewrite String.eqb_refl; eauto|].
+  destruct (IH (s + 1)%Z q H) as [i Hi]. congruence.
+Qed.
+
+Lemma index_injective involved q q' i :
+  dict_get q (enumerate_from 0 involved) = Some i -> dict_get q' (enumerate_from 0 involved) = Some i -> q = q'.
+Proof.
+  intros H H'. apply enumerate_get in H. apply enumerate_get in H'. destruct H as [_ H], H' as [_ H']. congruence.
+Qed.
+
+Lemma index_bijective involved :
+  NoDup involved ->
+  let m := enumerate_from 0 involved in
+  (forall q, In q involved -> exists i, dict_get q m = Some i)
+  /\ (forall q i, dict_get q m = Some i -> (0 <= i < Z.of_nat (List.length involved))%Z /\ nth_error involved (Z.to_nat i) = Some q)
+  /\ (forall q q' i, dict_get q m = Some i -> dict_get q' m = Some i -> q = q')
+  /\ (forall i, (0 <= i < Z.of_nat (List.length involved))%Z -> exists q, In q involved /\ dict_get q m = Some i).
+Proof.
+  intros ND m. split; [|split; [|split]].
+  - intros q Hq. now apply enumerate_defined.
+  - intros q i H. apply enumerate_get in H. destruct H as [B H]. rewrite Z.sub_0_r in H. split; [lia | exact H].
+  - intros q q' i. apply index_injective.
+  - intros i Hi. destruct (nth_error involved (Z.to_nat i)) as [q|] eqn:E.
+    + exists q. assert (Hq : In q involved) by (eapply nth_error_In; exact E). split; [exact Hq|].
+      destruct (enumerate_defined involved 0%Z q Hq) as [j Hj]. fold m in Hj. rewrite Hj. f_equal.
+      apply enumerate_get in Hj. destruct Hj as [B N]. rewrite Z.sub_0_r in N.
+      assert (X : Z.to_nat j = Z.to_nat i).
+      { eapply NoDup_nth_error; [exact ND | | congruence]. apply nth_error_Some. congruence. }
+      lia.
+    + apply nth_error_None in E. lia.
+Qed.
+
+Lemma interleave_In q : forall a b, In q (interleave a b) <-> In q a \/ In q b.
+Proof.
+  induction a as [|x a IH]; intros b; [cbn; tauto|].
+  destruct b as [|y b]; [cbn; tauto|]. cbn [interleave In]. rewrite IH. tauto.
+Qed.
+
+Lemma d_qubits_involved involved L q : In q (d_qubits (from_connectivity involved L)) -> In q involved.
+Proof.
+  unfold d_qubits, from_connectivity. cbn [d_data d_ancilla]. rewrite interleave_In, !filter_In. tauto.
+Qed.
+
+(* different qubits of a derived description get different circuit indices, and every one of them has an index *)
+Lemma derived_channel_injective involved L :
+  let d := from_connectivity involved L in
+  (forall q, In q (d_qubits d) -> exists i, dict_get q (d_index d) = Some i /\ index_of_qubit (d_index d) q = i)
+  /\ (forall q q', In q (d_qubits d) -> In q' (d_qubits d) ->
+        index_of_qubit (d_index d) q = index_of_qubit (d_index d) q' -> q = q').
+Proof.
+  intros d. assert (D : forall q, In q (d_qubits d) -> exists i, dict_get q (d_index d) = Some i /\ index_of_qubit (d_index d) q = i).
+  { intros q Hq. apply d_qubits_involved in Hq. destruct (enumerate_defined involved 0%Z q Hq) as [i Hi].
+    exists i. unfold index_of_qubit, d, from_connectivity. cbn [d_index]. now rewrite Hi. }
+  split; [exact D|]. intros q q' Hq Hq' E.
+  destruct (D q Hq) as [i [Hi Ei]], (D q' Hq') as [j [Hj Ej]]. rewrite Ei, Ej in E. subst j.
+  exact (index_injective involved q q' i Hi Hj).
+Qed.
+
+(* ------------------------------------------------------------------ composite descriptions *)
+Lemma composite_gates xe xq only l :
+  layer_gates (composite_layer xe xq only l) = filter (fun e => negb (excluded xe xq e)) (layer_gates l)
+  /\ forall e, In e (layer_gates (composite_layer xe xq only l)) <-> In e (layer_gates l) /\ excluded xe xq e = false.
+Proof.
+  split; [reflexivity|]. intros e. cbn [composite_layer layer_gates]. rewrite filter_In, negb_true_iff. tauto.
+Qed.
+
+Lemma composite_parks xe xq l q :
+  (In q (layer_parks (composite_layer xe xq true l))
+     <-> In q qubit_ids /\ requires_parking q (layer_gates (composite_layer xe xq true l)) = true)
+  /\ (In q (layer_parks (composite_layer xe xq false l))
+     <-> In q (layer_parks l) \/ (In q qubit_ids /\ requires_parking q (layer_gates (composite_layer xe xq false l)) = true)).
+Proof.
+  split.
+  - apply required_parks_spec.
+  - cbn [composite_layer layer_parks layer_gates]. rewrite in_app_iff, filter_In, required_parks_spec, negb_true_iff.
+    rewrite qmem_false_In. split; [tauto|]. intros [H|H]; [now left|].
+    destruct (in_dec string_dec q (layer_parks l)); [now left | right; tauto].
+Qed.
+
+(* executable for both parking modes: the gates are a subset of an executable layer's gates, the required parks are
+   always present, inherited parks never touch a remaining gate *)
+Lemma composite_layer_ok xe xq only l : layer_ok l = true -> layer_ok (composite_layer xe xq only l) = true.
+Proof.
+  intros H. destruct (layer_ok_clauses l H) as [H1 [H2 [H3 _]]].
+  destruct only; [rewrite composite_layer_refilter; now apply refilter_ok|].
+  unfold layer_ok. cbn [composite_layer layer_gates layer_parks]. rewrite !andb_true_iff. repeat split.
+  - now apply forallb_filter_keep.
+  - now apply qnodupb_filter.
+  - rewrite forallb_app, andb_true_iff. split.
+    + rewrite forallb_forall in *. intros p Hp. specialize (H3 p Hp). rewrite negb_true_iff in *.
+      destruct (qmem p (gate_qubits (filter (fun e => negb (excluded xe xq e)) (layer_gates l)))) eqn:E; [|reflexivity].
+      apply qmem_gate_qubits_filter in E. congruence.
+    + apply forallb_forall. intros q Hq. apply filter_In in Hq. destruct Hq as [Hq _].
+      apply required_parks_spec in Hq. destruct Hq as [_ Hq]. now rewrite (requires_parking_not_gated _ _ Hq).
+  - apply required_present. intros q Hq. apply in_or_app.
+    destruct (qmem q (layer_parks l)) eqn:E; [left; now apply qmem_In|].
+    right. apply filter_In. split; [exact Hq | now rewrite E].
+Qed.
+
+Lemma composite_executable (c : composite) :
+  forallb layer_ok (match c_lead_gate c with Some d => d_layers d | None => d_layers (c_base c) end) = true ->
+  forallb layer_ok (c_layers c) = true.
+Proof.
+  unfold c_layers. rewrite forallb_map_comp, !forallb_forall. intros H l Hl. apply composite_layer_ok. now apply H.
+Qed.
+
+(* history (finding F11): keeping the underlying layer's parks unchanged left a required park out *)
+Lemma composite_before_F11_refuted :
+  exists xe L involved i,
+    In L shipped_layouts /\
+    let l := composite_layer_before_F11 xe [] false (nth i (d_layers (from_connectivity involved L)) (MkGateLayer [] [])) in
+    layer_ok l = false /\ requires_parking "X3" (layer_gates l) = true /\ qmem "X3" (layer_parks l) = false.
+Proof.
+  exists [("X3", "D8")], Repetition9Code, qubit_ids, 1%nat. split; [now left|]. vm_compute. repeat split.
+Qed.
+
+(* ------------------------------------------------------------------ non-vacuity *)
+Example derived_example :
+  let d := from_connectivity ["D7"; "Z3"; "D4"; "Z1"; "D5"] Repetition9Code in
+  d_qubits d = ["D7"; "Z3"; "D4"; "Z1"; "D5"]
+  /\ map layer_gates (d_layers d) = [[("Z1", "D4")]; [("Z1", "D5")]; [("Z3", "D7")]; [("Z3", "D4")]]
+  /\ map layer_parks (d_layers d) = [["X3"; "Z3"]; ["Z4"; "X3"; "X2"]; []; ["X3"; "Z1"]]
+  /\ get_gate_sequence_indices (d_layers d) (d_index d) 0 = Some [(3, 2)%Z]
+  /\ get_park_sequence_indices (d_qubits d) (d_layers d) (d_index d) 0 = Some [1%Z]
+  /\ forallb layer_ok (d_layers d) = true.
+Proof. vm_compute. repeat split. Qed.
+
+Example composite_example :
+  let l := composite_layer [("X3", "D8")] [] false (nth 1 (layout_layers Repetition9Code) (MkGateLayer [] [])) in
+  layer_gates l = [("X1", "D2"); ("Z1", "D5"); ("Z2", "D3")]
+  /\ layer_parks l = ["D7"; "Z4"; "D9"; "X2"; "D1"; "X3"] /\ layer_ok l = true.
+Proof. vm_compute. repeat split. Qed.
+
+(* ------------------------------------------------------------------ the statement about the shipped tables *)
+Lemma layouts_wf :
+  spec_device qubit_ids S17_edges (S17_parity_x ++ S17_parity_z)%list
+              (map (fun kv => (fst kv, FrequencyGroupIdentifier__id (snd kv))) S17_frequency) = true
+  /\ forallb layout_ok [Repetition9Code; Repetition9Round6Code; Repetition5Round4Code] = true.
+Proof. split; [exact (proj1 device_tables_wf) | exact layouts_wf_b]. Qed.
+
+Lemma layouts_rule :
+  forallb (fun L => forallb layer_rule_ok (layout_layers L)) [Repetition9Code; Repetition9Round6Code; Repetition5Round4Code] = true.
+Proof. exact layouts_rule_b. Qed.
+
+Lemma derived_gates_full involved L l :
+  d_layers (from_connectivity involved L) = map (derive_layer involved) (layout_layers L)
+  /\ layer_gates (derive_layer involved l) = filter (both_involved involved) (layer_gates l)
+  /\ forall e, In e (layer_gates (derive_layer involved l))
+               <-> In e (layer_gates l) /\ In (fst e) involved /\ In (snd e) involved.
+Proof. exact (conj (derived_layers involved L) (derived_gates involved l)). Qed.
+
+Lemma derived_parks_full involved L l q :
+  (In q (layer_parks (derive_layer involved l))
+     <-> In q qubit_ids /\ requires_parking q (layer_gates (derive_layer involved l)) = true)
+  /\ (In q (filter (fun p => qmem p (d_qubits (from_connectivity involved L))) (layer_parks (derive_layer involved l)))
+     <-> In q (d_qubits (from_connectivity involved L)) /\ In q qubit_ids
+         /\ requires_parking q (layer_gates (derive_layer involved l)) = true).
+Proof. exact (conj (derived_parks involved l q) (observed_parks involved L l q)). Qed.
